@@ -13,7 +13,7 @@ META = {
             "inferred type is a function type; Z4 the encoder emits (line - prev_line, start - prev_start, end - start) and updates "
             "(prev_line, prev_start) after every token, resetting prev_start on a new line. One obligation per tag / clause. Z4 also: the previous-token position moves only after a token was pushed. Z5 = C13/D10. Z8 highlight enumerates tokens by a tree walk (next_token stops at token-less nodes). Z7 = C13/D4, D9 (the analysis computes on the text whose line map the encoder uses). Z6 the legend of the initialize response is the table the encoder indexes, independent of the client's capabilities. Z10 = C09/Y11 (a function-typed local is tagged from its inferred type: an alias left 'in progress' turns the next mention of the alias into an unknown).",
     "explanation": "Decides the table and shape clauses of C19. That `end - start` and the clamping against the line end never "
-                   "underflow for any text is arithmetic over runtime strings (see C14) and is not decided.",
+                   "underflow for any text is arithmetic over runtime strings (see C14) and is not decided. Z12 = C14 U12 (engine U). Z13 = C13 D2.",
     "not_decided": "absence of underflow in the UTF-16 column arithmetic; exactness of the set of highlighted identifiers for every program.",
     "trusted_base": ["rustc MIR", "rowan: next_token walks tokens in document order"],
     "assumptions": [],
